@@ -74,7 +74,9 @@ def sp_pubfold(eng, st, kids, def_vis, j):
         d.ground_axiom("pubfold.base", Eq(f(kids.t, def_vis.t, IntVal(0)), smt.EmptySeq(REFS)))
         c = At(kids.t, j.t)
         vis = d.fun("Obj.vis", ["Ref"], smt.INT)(c)
-        private = Or(Lt(vis, IntVal(0)), And(Lt(def_vis.t, IntVal(0)), Le(vis, IntVal(0))))
+        # an unnamed interface block is not an entity: it is always kept (its members are filtered in their turn)
+        block = smt.PrefixOf(StrVal("#GEN_INT"), d.fun("Obj.name", ["Ref"], smt.STR)(c))
+        private = And(Not(block), Or(Lt(vis, IntVal(0)), And(Lt(def_vis.t, IntVal(0)), Le(vis, IntVal(0)))))
         d.ground_axiom("pubfold.step", Implies(And(Le(IntVal(0), j.t), Lt(j.t, Len(kids.t))),
                                                Eq(f(kids.t, def_vis.t, Add(j.t, IntVal(1))), Ite(private, cur, Concat(cur, Unit(c))))))
     return V(TSeq(TRef("Obj")), cur)
@@ -107,15 +109,18 @@ def build(reg):
     def m_copy(eng, st, node, args, kwargs):
         return args[0]
 
+    # the default accessibility in force: an unnamed interface block takes the one of the scope that contains it
+    EFF = "(self.parent.def_vis if (self.name.startswith('#GEN_INT') and self.parent is not None) else self.def_vis)"
     reg.add(Contract(
         f"{SCOPE}.get_children", prop="C12", receiver_cls="Scope", params={"public_only": BOOL},
-        fields={"self.children": TSeq(TRef("Obj")), "self.def_vis": INT}, ref_fields=rf,
+        fields={"self.children": TSeq(TRef("Obj")), "self.def_vis": INT, "self.name": STR, "self.parent": TOpt(TRef("Obj"))},
+        ref_fields={**rf, ("Obj", "def_vis"): INT},
         locals_={"pub_children": TSeq(TRef("Obj"))}, result=TSeq(TRef("Obj")),
         ensures=[("all", "implies(not public_only, result == self.children)"),
-                 ("public_exact", "implies(public_only, result == pubfold(self.children, self.def_vis, len(self.children)))")],
+                 ("public_exact", f"implies(public_only, result == pubfold(self.children, {EFF}, len(self.children)))")],
         calls={"copy.copy": m_copy},
         loops={0: LoopSpec("for child in self.children", index="_j", invariants=[
-            ("fold", "pub_children == pubfold(self.children, self.def_vis, _j)")])},
+            ("fold", f"pub_children == pubfold(self.children, {EFF}, _j)")])},
         short="Scope.get_children"))
     inherit.add(reg, "C12")
     return reg
@@ -219,13 +224,21 @@ def search(func, tier, seed, obligation=""):
             def __init__(self, name, vis):
                 self.name, self.vis = name, vis
         for def_vis in (-1, 0, 1):
-            s = Scope.__new__(Scope)
-            s.children = [O("a", -1), O("b", 0), O("c", 1), O("#GEN_INT1", 0)]
-            s.def_vis = def_vis
-            got = [c.name for c in s.get_children(True)]
-            want = [c.name for c in s.children if not (c.vis < 0 or (def_vis < 0 and c.vis <= 0))]
-            if got != want:
-                return {"function": "Scope.get_children(public_only=True)", "def_vis": def_vis, "expected": want, "returned": got}
+            for name, parent_vis in (("m", None), ("#GEN_INT3", -1), ("#GEN_INT3", 0), ("#GEN_INT3", None)):
+                s = Scope.__new__(Scope)
+                s.children = [O("a", -1), O("b", 0), O("c", 1), O("#GEN_INT1", 0), O("#GEN_INT2", -1)]
+                s.def_vis, s.name = def_vis, name
+                s.parent = None
+                if parent_vis is not None:
+                    s.parent = O("host", 0)
+                    s.parent.def_vis = parent_vis
+                eff = parent_vis if (name.startswith("#GEN_INT") and parent_vis is not None) else def_vis
+                got = [c.name for c in s.get_children(True)]
+                want = [c.name for c in s.children
+                        if c.name.startswith("#GEN_INT") or not (c.vis < 0 or (eff < 0 and c.vis <= 0))]
+                if got != want:
+                    return {"function": "Scope.get_children(public_only=True)", "scope": name, "def_vis": def_vis,
+                            "default_of_containing_scope": parent_vis, "expected": want, "returned": got}
         return None
     return c12_probe.run()
 
